@@ -248,7 +248,13 @@ class Program:
 
             return {"Counter": _c.Counter, "defaultdict": _c.defaultdict, "OrderedDict": dict, "deque": _c.deque}[attr]
         if root in ("typing", "collections", "abc", "types", "__future__", "enum", "datetime", "decimal", "pprint"):
-            return NoOp(attr)
+            n = NoOp(attr)
+            if root in ("typing", "collections"):
+                import collections.abc as _abc
+
+                if isinstance(getattr(_abc, attr, None), type):
+                    n.abc = getattr(_abc, attr)  # isinstance(x, Iterable) is decided (interp._isinstance)
+            return n
         mod = self.stdlib_module(root)
         try:
             return getattr(mod, attr)
